@@ -327,7 +327,20 @@ def _variants():
         V("skewind-uses-sum", replace_expr(CO, "zero_plus_skewind", "fstrip(perm).skew_decomposable()", "fstrip(perm).sum_decomposable()"), "fire-or-undecided", "C19-V1"),
         V("last-skew-target-top", replace_expr(CO, "last_skew_component", "set(range(i))", "set(range(n - i, n))"), "fire", "C19-V1"),
         V("last-sum-suffix-from-left", replace_expr(CO, "last_sum_component", "perm[n - i]", "perm[i - 1]"), "fire", "C19-V1"),
+        V("rucu-extension-sumind", replace_expr(CO, "RuCuCoreStrategy.is_valid_extension", "zero_plus_skewind(patt)", "zero_plus_sumind(patt)"), "fire", "C19-V2"),
+        V("rdcu-extension-drops-sumind", replace_expr(CO, "RdCuCoreStrategy.is_valid_extension", "zero_plus_skewind(patt) and zero_plus_sumind(bstrip(patt))", "zero_plus_skewind(patt)"), "fire", "C19-V2"),
+        V("rdcdcu-extension-unstripped", replace_expr(CO, "RdCdCuCoreStrategy.is_valid_extension", "zero_plus_sumind(bstrip(patt))", "zero_plus_sumind(patt)"), "fire", "C19-V2"),
+        V("ru2143-last-component-sum", replace_expr(CO, "Ru2143CoreStrategy.is_valid_extension", "last_skew_component(patt)", "last_sum_component(patt)"), "fire", "C19-V2"),
+        V("rd2134-single-point-dropped", replace_expr(CO, "Rd2134CoreStrategy.is_valid_extension", "last_comp not in Rd2134CoreStrategy._NON_INC or len(last_comp) == 1", "last_comp not in Rd2134CoreStrategy._NON_INC"), "fire", "C19-V2"),
+        V("ru2143-single-point-allowed", replace_expr(CO, "Ru2143CoreStrategy.is_valid_extension", "last_skew_component(patt) not in Ru2143CoreStrategy._NON_DEC", "(last_skew_component(patt) not in Ru2143CoreStrategy._NON_DEC or len(last_skew_component(patt)) == 1)"), "fire-or-undecided", "C19-V2"),
+        V("rucucd-needed-wrong-column", replace_expr(CO, "RuCuCdCoreStrategy", "frozenset([R_U, C_U, C_D])", "frozenset([R_U, C_U, R_D])"), "fire", "C19-V2"),
+        V("ru2143-needed-2134", replace_expr(CO, "Ru2143CoreStrategy", "Perm((1, 0, 3, 2))", "Perm((1, 0, 2, 3))"), "fire", "C19-V2"),
+        V("core-pattern-cu-not-inverse", replace_expr(CO, None, "Perm((2, 0, 1, 3))", "Perm((2, 1, 0, 3))"), "fire", "C19-V2"),
+        V("ru2143-mesh-cell-dropped", replace_expr(CO, "Ru2143CoreStrategy", "[(0, 1), (0, 2), (1, 0), (1, 1), (1, 2), (2, 1), (2, 2)]", "[(0, 1), (0, 2), (1, 0), (1, 1), (1, 2), (2, 1)]"), "fire", "C19-V2"),
+        V("ru2143-non-dec-is-non-inc", replace_expr(CO, "Ru2143CoreStrategy", "Av.from_iterable([Perm((1, 0))])", "Av.from_iterable([Perm((0, 1))])"), "fire", "C19-V2"),
         # silent
+        V("needed-as-set-display", replace_expr(CO, "RuCuCoreStrategy", "frozenset([R_U, C_U])", "frozenset({C_U, R_U})"), "silent"),
+        V("non-inc-av-direct", replace_expr(CO, "Rd2134CoreStrategy", "Av.from_iterable([Perm((0, 1))])", "Av(Basis(Perm((0, 1))))"), "silent"),
         V("rd2134-early-return-form", replace_stmt(CO, "Rd2134CoreStrategy.is_valid_extension", "last_comp = last_sum_component(fstrip(patt))", "if patt[0] != 0:\n    return False\nlast_comp = last_sum_component(fstrip(patt))"), "silent"),
         V("reformat-init", reformat_only(IN), "silent"),
         V("reformat-core", reformat_only(CO), "silent"),
@@ -469,3 +482,146 @@ FLOORS["C19-V1"] = 18
 EXPLANATION = EXPLANATION.replace("NOT decided: the shape helpers (fstrip, bstrip, last_sum_component, ...), that each patterns_needed set",
                                   "(e) every core strategy accepts an extra basis element only in the '1 (+) p' form (V1: patt[0] == 0 required on the unstripped pattern, directly or through a zero_plus_* helper) "
                                   "and the shape helpers fstrip, bstrip, zero_plus_*, last_sum_component, last_skew_component state their definitions (V1). NOT decided: that each patterns_needed set")
+
+
+# ------------------------------------------------------------------ V2: each core strategy's stated hypothesis (needed patterns named by the class, prescribed extension form)
+
+# the four core patterns of the source (module constants R_U, C_U, R_D, C_D): a column pattern is the inverse of the row pattern
+CORE_PATTS = {"Ru": (1, 2, 0, 3), "Cu": (2, 0, 1, 3), "Rd": (1, 3, 0, 2), "Cd": (2, 0, 3, 1)}
+
+# prescribed extension form per strategy, as reviewed on the pinned tree (corollary numbers in corr_number); a0 = the extra basis element
+EXTENSION_SPECS = {
+    "RuCuCoreStrategy": ["return zero_plus_skewind(a0)"],
+    "RdCdCoreStrategy": ["return zero_plus_sumind(a0)"],
+    "RuCuRdCdCoreStrategy": ["return zero_plus_perm(a0)"],
+    "RuCuCdCoreStrategy": ["return zero_plus_skewind(a0)"],
+    "RdCdCuCoreStrategy": ["return zero_plus_sumind(bstrip(a0))"],
+    "RdCuCoreStrategy": ["return zero_plus_skewind(a0) and zero_plus_sumind(bstrip(a0))"],
+    "Rd2134CoreStrategy": ["return a0[0] == 0 and fstrip(a0).avoids(Rd2134CoreStrategy._M_PATT) and (last_sum_component(fstrip(a0)) not in Rd2134CoreStrategy._NON_INC or len(last_sum_component(fstrip(a0))) == 1)"],
+    "Ru2143CoreStrategy": ["return a0[0] == 0 and fstrip(a0).avoids(Ru2143CoreStrategy._M_PATT) and last_skew_component(fstrip(a0)) not in Ru2143CoreStrategy._NON_DEC"],
+}
+_M_SHADING = frozenset([(0, 1), (0, 2), (1, 0), (1, 1), (1, 2), (2, 1), (2, 2)])
+CLASS_CONSTANTS = {
+    ("Rd2134CoreStrategy", "_NON_INC"): ("Av", frozenset([(0, 1)])),
+    ("Rd2134CoreStrategy", "_M_PATT"): ("MeshPatt", (1, 0), _M_SHADING),
+    ("Ru2143CoreStrategy", "_NON_DEC"): ("Av", frozenset([(1, 0)])),
+    ("Ru2143CoreStrategy", "_M_PATT"): ("MeshPatt", (0, 1), _M_SHADING),
+}
+
+
+def _eval_const(repo: Repo, mod: ModuleInfo, node: ast.AST, depth: int = 0):
+    """Value of a constant expression built from Perm(...), MeshPatt(...), Av(...)/Av.from_iterable(...), frozenset/set/list/tuple
+    displays and module-level names; AnalysisError for anything else."""
+    if depth > 6:
+        raise AnalysisError("constant expression too deep")
+    if isinstance(node, ast.Constant) and isinstance(node.value, int):
+        return node.value
+    if isinstance(node, (ast.Tuple, ast.List)):
+        return tuple(_eval_const(repo, mod, e, depth + 1) for e in node.elts)
+    if isinstance(node, ast.Set):
+        return frozenset(_eval_const(repo, mod, e, depth + 1) for e in node.elts)
+    if isinstance(node, ast.Name):
+        if node.id in mod.assigns:
+            return _eval_const(repo, mod, mod.assigns[node.id], depth + 1)
+        if node.id in mod.imports:
+            src, orig = mod.imports[node.id]
+            target = repo.modules.get(src)
+            if target is not None and orig in target.assigns:
+                return _eval_const(repo, target, target.assigns[orig], depth + 1)
+        raise AnalysisError(f"name {node.id} is not a module-level constant")
+    if isinstance(node, ast.Call) and not node.keywords:
+        cn = call_name(node)
+        args = [_eval_const(repo, mod, a, depth + 1) for a in node.args]
+        if cn == ("Perm",) and len(args) == 1 and isinstance(args[0], tuple):
+            return tuple(args[0])
+        if cn in (("frozenset",), ("set",)) and len(args) == 1:
+            return frozenset(args[0])
+        if cn in (("list",), ("tuple",)) and len(args) == 1:
+            return tuple(args[0])
+        def perms(xs):
+            xs = frozenset(xs)
+            if not all(isinstance(x, tuple) and all(isinstance(v, int) for v in x) for x in xs):
+                raise AnalysisError(f"`{unparse(node)[:60]}`: not a collection of permutations")
+            return xs
+        if cn == ("Basis",):
+            return ("Av", perms(args))
+        if cn in (("Av",), ("Av", "from_iterable")) and len(args) == 1:
+            if isinstance(args[0], tuple) and len(args[0]) == 2 and args[0][0] == "Av":
+                return args[0]
+            return ("Av", perms(args[0]))
+        if cn == ("MeshPatt",) and len(args) == 2:
+            return ("MeshPatt", tuple(args[0]), frozenset(args[1]))
+    raise AnalysisError(f"constant expression `{unparse(node)[:60]}` not evaluated")
+
+
+def _name_tokens(cls_name: str):
+    """RuCuCd -> {Ru, Cu, Cd};  Rd2134 -> {Rd, (1,0,2,3)} (one-based digits in the name)."""
+    import re
+
+    stem = cls_name[: -len("CoreStrategy")]
+    toks = re.findall(r"Ru|Cu|Rd|Cd|\d+", stem)
+    if "".join(toks) != stem:
+        return None
+    out = set()
+    for t in toks:
+        out.add(CORE_PATTS[t] if t in CORE_PATTS else tuple(int(ch) - 1 for ch in t))
+    return frozenset(out)
+
+
+def rule_v2(ctx: Ctx) -> None:
+    repo = ctx.repo
+    mod = repo.module("permuta.enumeration_strategies.core_strategies")
+    for const, tok in (("R_U", "Ru"), ("C_U", "Cu"), ("R_D", "Rd"), ("C_D", "Cd")):
+        node = mod.assigns.get(const)
+        if node is None:
+            continue  # the classes may spell their patterns out; checked below by value
+        val = _eval_const(repo, mod, node)
+        if val == CORE_PATTS[tok]:
+            ctx.ok("C19-V2", f"{mod.name}:{const}", f"{const} = {''.join(str(v + 1) for v in val)}")
+        else:
+            ctx.violation("C19-V2", f"{mod.relpath}:{const}", mod.assign_nodes.get(const), f"{const} is {val}, the core pattern is {CORE_PATTS[tok]} (row patterns 2314 / 2413, column patterns their inverses)", file=mod.relpath)
+    for c in concrete_strategies(repo):
+        if "CoreStrategy" not in {k.name for k in repo.mro(c.name)}:
+            continue
+        # (a) the needed patterns are the ones the class is named after
+        want = _name_tokens(c.name) if c.name.endswith("CoreStrategy") else None
+        node = c.assigns.get("patterns_needed")
+        if node is None or want is None:
+            raise AnalysisError(f"{c.name}: patterns_needed / naming scheme not recognised")
+        got = _eval_const(repo, c.module, node)
+        if not isinstance(got, frozenset):
+            raise AnalysisError(f"{c.name}.patterns_needed is not a set of permutations")
+        if got == want:
+            ctx.ok("C19-V2", c.where, f"patterns_needed = {sorted(got)} as named by the class")
+        else:
+            ctx.violation("C19-V2", f"{c.where}", c.assign_nodes.get("patterns_needed") if hasattr(c, "assign_nodes") else c.node,
+                          f"{c.name}.patterns_needed is {sorted(got)}; the strategy's stated hypothesis (its name) requires {sorted(want)}", file=c.module.relpath)
+        # (b) the prescribed form of the other basis elements
+        specs = EXTENSION_SPECS.get(c.name)
+        if specs is None:
+            raise AnalysisError(f"{c.name}: no prescribed extension form on record (new core strategy?)")
+        f = repo.method(c.name, "is_valid_extension")
+        if f is None:
+            raise AnalysisError(f"{c.name}.is_valid_extension not found")
+        ctx.run(check_skeleton, ctx, "C19-V2", f, specs, f"{c.name}: prescribed form of an extra basis element")
+    for (cname, attr), want in CLASS_CONSTANTS.items():
+        c = repo.cls(cname)
+        node = c.assigns.get(attr) if c is not None else None
+        if node is None:
+            raise AnalysisError(f"{cname}.{attr} not found")
+        got = _eval_const(repo, c.module, node)
+        if got == want:
+            ctx.ok("C19-V2", f"{c.where}.{attr}", f"{attr} = {unparse(node)[:80]}")
+        else:
+            ctx.violation("C19-V2", f"{c.where}.{attr}", node, f"{cname}.{attr} evaluates to {got}; the strategy's condition uses {want}", file=c.module.relpath)
+
+
+_OLD_RUN_V2 = run
+
+
+def run(ctx: Ctx) -> None:  # noqa: F811
+    _OLD_RUN_V2(ctx)
+    ctx.run(rule_v2, ctx)
+
+
+FLOORS["C19-V2"] = 24
